@@ -327,6 +327,13 @@ func (c *FnCtx) frameDesignators(k string, fc *FuncContract, sc *SpecCtx, entry 
 			}
 			continue
 		}
+		if strings.HasPrefix(m, "allmaps(") && strings.HasSuffix(m, ")") {
+			mt := c.allmapsType(m, &psc, entry)
+			if k == "MD:"+mapTypeName(mt) || k == "MV:"+mapTypeName(mt) {
+				return true, nil, nil
+			}
+			continue
+		}
 		if strings.HasSuffix(m, "[*]") {
 			e, err := parseSpec(strings.TrimSuffix(m, "[*]"))
 			if err != nil {
